@@ -1134,6 +1134,12 @@ func main() {
 		if in.Soft && strings.HasPrefix(in.Finisher, "delete_value") {
 			in.Finisher = "delete"
 		}
+		if in.Finisher == "updates_structval_nomodel" {
+			// (a model passed by value is not addressable: its key is ALSO assigned, `SET id = 3`; on the
+			// several rows an Or chain selects that is a UNIQUE violation, not this property's matter: the
+			// by-value form stays with the enumerated condition-free chains)
+			in.Finisher = "updates_struct_nomodel"
+		}
 		softcol := strings.HasSuffix(in.Finisher, "_softcol")
 		if r.Chance(1, 4) {
 			in.PK = 3
